@@ -239,6 +239,13 @@ def _exec_c16(plan, world, R):
                 world.advance(op[1])
                 R.shape.append((kind,))
             elif kind == "create":
+                if nd is not None and not freed:
+                    # (shrunk plans) one NotifierDelay is alive at a time: release the previous one first
+                    try:
+                        nd.free()
+                    except Exception as e:
+                        R.fail("exception", idx, op, f"{type(e).__name__}: {e}")
+                    freed = True
                 n_before = hs.getNumNotifiers()
                 t0 = world.now_us()
                 try:
